@@ -41,6 +41,7 @@ def handlePOp (acc : Acc) (h : FHist) (kv : KV) (line : String) : Acc × FHist :
   let acc := { acc with checked := acc.checked + 1 }
   let op := kv.str "op"
   let ok := kv.bool "ok"
+  let acc := acc.cover s!"feed.{op}:{if ok then "ok" else "err"}"
   let key := kv.nat "key"
   let now := kv.nat "now"
   let snd := kv.nat "snd"
